@@ -7,6 +7,8 @@ import EinoV.Model.C20Builder
 import EinoV.Proofs.C20
 import EinoV.Proofs.C20Ends
 import EinoV.Proofs.C20Kahn
+import EinoV.Model.C20Wf
+import EinoV.Proofs.C20Wf
 import EinoV.Gen.FactsC20
 import EinoV.Expected.C20
 
@@ -31,7 +33,8 @@ def srcFacts : Facts :=
 theorem facts_match :
     srcFacts = Expected.C20.facts ∧
     FactsC20.nodeUnstoredReturns = 0 ∧ FactsC20.edgeUnstoredReturns = 1 ∧
-    FactsC20.branchUnstoredReturns = 0 ∧ FactsC20.compileReturnsStoredErrFirst = true := by
+    FactsC20.branchUnstoredReturns = 0 ∧ FactsC20.compileReturnsStoredErrFirst = true ∧
+    FactsC20.entryExitInControlBlock = Expected.C20.entryExitInControlBlock := by
   decide
 
 theorem srcFacts_guarded : srcFacts.Guarded := by
@@ -357,6 +360,154 @@ theorem compile_retry_same (ord : Ord) (b : Builder) (o : COpts) (k : ErrKind)
       · rfl
       · simp_all
 
+/-! ## declarations above the builder: the Workflow API, graphs used as nodes -/
+
+/-- how declarations are evaluated for the source at hand: the builder facts, and where
+    `addEdgeWithMappings` records entry / exit edges -/
+def srcEnv (im : Impl) (ord : Ord) : Env :=
+  { f := srcFacts, inCtl := FactsC20.entryExitInControlBlock, im, ord }
+
+theorem srcEnv_inCtl (im : Impl) (ord : Ord) : (srcEnv im ord).inCtl = true := facts_match.2.2.2.2.2
+
+/-- **Source fact tie (entry / exit bookkeeping).**  With the two appends where the source has
+    them – inside `if !noControl { … }` – `addEdgeWithMappings` is the function of the builder
+    model: every theorem above speaks about the calls a declaration is lowered to. -/
+theorem edge_bookkeeping_tie (im : Impl) (ord : Ord) (b : Builder) (op : Op) :
+    stepK (srcEnv im ord) b op = step srcFacts im ord b op :=
+  stepK_true (srcEnv im ord) (srcEnv_inCtl im ord) b op
+
+/-- a data-only edge (`WithNoDirectDependency`) is neither an entry nor an exit edge -/
+theorem data_only_edge_is_no_entry_or_exit (im : Impl) (ord : Ord) (b : Builder) (s e : Key) (nd : Bool)
+    (m : Option Nat) :
+    let b' := (stepK (srcEnv im ord) b (.edge s e true nd m)).1
+    b'.startNodes = b.startNodes ∧ b'.endNodes = b.endNodes := by
+  intro b'
+  have h := addEdge_keeps srcFacts im ord b s e true nd m
+  have e : b' = (addEdge srcFacts im ord b s e true nd m).1 := by
+    simp only [b', edge_bookkeeping_tie, step]
+  rw [e]
+  exact ⟨h.1 (by simp), h.2.1 (by simp)⟩
+
+/-- **rejects_workflow_without_entry_edge.**  A Workflow in which every input taken from START
+    is declared `WithNoDirectDependency()` (no AddInput / AddDependency on START; the
+    Workflow's branches, added with `skipData`, record no entry edge either) has no entry edge:
+    every Compile of it, with any options, whatever sub-graphs it contains, is refused. -/
+theorem rejects_workflow_without_entry_edge (im : Impl) (ord : Ord) (hv : ord.Valid) (chk : Bool) (d : WfDecl)
+    (h : ∀ n ∈ d.nodes, ∀ i ∈ n.ins, i.src = START → i.kind = .indirect)
+    (hE : ∀ i ∈ d.endIns, i.src = START → i.kind = .indirect) (cos : List COpts) :
+    ∀ oc ∈ (d.lower chk).compiles (srcEnv im ord) cos, oc.isOk = false := by
+  intro oc hoc
+  simp only [Decl.compiles, WfDecl.lower, Decl.compilesX, List.mem_map] at hoc
+  rcases hoc with ⟨r, hr, rfl⟩
+  have hb := (build_keeps (srcEnv im ord) (srcEnv_inCtl im ord) hv (wfNodeOps d.nodes)
+    (Builder.new .workflow d.inT d.outT d.stateTy)).1 (wfNodeOps_all _ (fun _ => rfl) d.nodes)
+  exact compilesFrom_no_entry (srcEnv im ord) (srcEnv_inCtl im ord) hv _ _ _ (wf_guard_not_ok chk d)
+    (fun op hop => (wf_branchOps_entry d op hop).1) cos _ _ (by rw [hb]; rfl)
+    (wf_inputOps_entry d h hE) r hr
+
+/-- **rejects_workflow_without_exit_edge.**  Likewise when END only takes
+    `WithNoDirectDependency()` inputs (or none at all). -/
+theorem rejects_workflow_without_exit_edge (im : Impl) (ord : Ord) (hv : ord.Valid) (chk : Bool) (d : WfDecl)
+    (h : ∀ n ∈ d.nodes, n.key ≠ END) (hE : ∀ i ∈ d.endIns, i.kind = .indirect) (cos : List COpts) :
+    ∀ oc ∈ (d.lower chk).compiles (srcEnv im ord) cos, oc.isOk = false := by
+  intro oc hoc
+  simp only [Decl.compiles, WfDecl.lower, Decl.compilesX, List.mem_map] at hoc
+  rcases hoc with ⟨r, hr, rfl⟩
+  have hb := (build_keeps (srcEnv im ord) (srcEnv_inCtl im ord) hv (wfNodeOps d.nodes)
+    (Builder.new .workflow d.inT d.outT d.stateTy)).2.1 (wfNodeOps_all _ (fun _ => rfl) d.nodes)
+  exact compilesFrom_no_exit (srcEnv im ord) (srcEnv_inCtl im ord) hv _ _ _ (wf_guard_not_ok chk d)
+    (fun op hop => (wf_branchOps_entry d op hop).2) cos _ _ (by rw [hb]; rfl)
+    (wf_inputOps_exit d h hE) r hr
+
+/-- **rejects_workflow_options.**  `WithMaxRunSteps` (a Workflow always runs in all-predecessor
+    mode) and `WithNodeTriggerMode` are invalid on a Workflow: its first Compile with such
+    options is refused – also when the Workflow is a node of another graph, see
+    `sub_graph_failure_rejects_parent`. -/
+theorem rejects_workflow_options (im : Impl) (ord : Ord) (hv : ord.Valid) (chk : Bool) (d : WfDecl) (co : COpts)
+    (ho : co.maxSteps > 0 ∨ co.trigger ≠ .unset) :
+    (Decl.first (srcEnv im ord) (d.lower chk) co).isOk = false := by
+  simp only [WfDecl.lower, Decl.first]
+  have hb := (build_keeps (srcEnv im ord) (srcEnv_inCtl im ord) hv (wfNodeOps d.nodes)
+    (Builder.new .workflow d.inT d.outT d.stateTy)).2.2 (wfNodeOps_all _ (fun _ => rfl) d.nodes)
+  exact attempt_bad_options (srcEnv im ord) (srcEnv_inCtl im ord) hv _ _ _ co _ (wf_guard_not_ok chk d)
+    (by have := congrArg Prod.snd hb; simp only at this; rw [this]; rfl) (wf_calls_noCompile d) ho
+
+/-- **sub_graph_failure_rejects_parent.**  If the graph given to `AddGraphNode(key, child,
+    WithGraphCompileOptions(co))` cannot be compiled with `co` – no entry edge, a step limit on
+    a Workflow, a stored error, … – the first Compile of the declaring graph is refused too. -/
+theorem sub_graph_failure_rejects_parent (im : Impl) (ord : Ord) (hv : ord.Valid)
+    (cmp : Cmp) (inT outT : Ty) (st : Option Nat) (ops : DOps) (re once : List Op) (guard : Option Outcome)
+    (hg : ∀ oc, guard = some oc → oc.isOk = false)
+    (hops : ops.all (fun o => !o.isCompile) = true)
+    (key : Key) (child : Decl) (co : COpts) (hs : DOps.hasSub key child co ops)
+    (hchild : (Decl.first (srcEnv im ord) child co).isOk = false) (o : COpts) :
+    (Decl.first (srcEnv im ord) (.mk cmp inT outT st ops re once guard) o).isOk = false := by
+  simp only [Decl.first]
+  rcases build_sub (srcEnv im ord) srcFacts_guarded (srcEnv_inCtl im ord) hv key child co ops
+    (Builder.new cmp inT outT st) hops rfl hs with h | h
+  · unfold attempt
+    split
+    · rfl
+    · rename_i hn; exact absurd hn h
+  · unfold attempt
+    split
+    · rfl
+    · split
+      · rename_i oc; exact hg oc rfl
+      · exact compileN_kid_fails _ _ _ _ _ _ h hchild
+
+/-- Go compiles the sub-graph nodes in map order; accept / reject does not depend on it -/
+theorem sub_graph_order_free (ord : Ord) (b : Builder) (o : COpts) (kids kids' : List Outcome)
+    (hp : kids.Perm kids') :
+    (compileN srcFacts ord b o kids).2.1.isOk = (compileN srcFacts ord b o kids').2.1.isOk :=
+  compileN_perm srcFacts ord b o kids kids' hp
+
+/-- **workflow_compile_never_panics_partial.**  Full statement: no Compile of a declared
+    Workflow panics.  Proved for Workflows whose branches only name declared end nodes, or for a
+    source in which `Workflow.compile` checks that lookup (fact `wfBranchEndsChecked`; the
+    unrepaired source does not: `workflow_compile_panics_on_undeclared_branch_end`), given that
+    none of its sub-graphs panics. -/
+theorem workflow_compile_never_panics_partial (im : Impl) (ord : Ord) (d : WfDecl) (co : COpts)
+    (h : FactsC20.wfBranchEndsChecked = true ∨ d.badBranchEnd = false)
+    (hk : ∀ k ∈ (d.lower FactsC20.wfBranchEndsChecked).kidOutcomes (srcEnv im ord), k ≠ .panic) :
+    Decl.first (srcEnv im ord) (d.lower FactsC20.wfBranchEndsChecked) co ≠ .panic := by
+  have hm : srcFacts.compileMutates = false := by decide
+  simp only [WfDecl.lower, Decl.first, Decl.kidOutcomes] at hk ⊢
+  unfold attempt
+  split
+  · simp
+  · split
+    · rename_i oc hoc
+      unfold WfDecl.guard at hoc
+      rcases h with h | h
+      · simp only [h, ↓reduceIte] at hoc
+        split at hoc
+        · simp only [Option.some.injEq] at hoc; rw [← hoc]; simp
+        · simp at hoc
+      · simp [h] at hoc
+    · simp only [show (srcEnv im ord).f = srcFacts from rfl, show (srcEnv im ord).ord = ord from rfl]
+      unfold compileN
+      simp only [mutatePre_off srcFacts hm]
+      split
+      · simp
+      · split
+        · simp
+        · rename_i hp
+          split
+          · rename_i oc hfind
+            have hmem := List.mem_of_find?_eq_some hfind
+            have := hk oc hmem
+            cases oc <;> simp_all [Outcome.asChild]
+          · have ht := compilePre_typed _ co hp
+            split
+            · rename_i oc hpost
+              unfold compilePost at hpost
+              simp only [ht] at hpost
+              repeat' split at hpost
+              all_goals simp_all
+              all_goals (subst_vars; simp)
+            · simp
+
 /-! ## non-vacuity and negation witnesses -/
 
 def exImpl : Impl := [(.conc 3, 0)]
@@ -414,6 +565,51 @@ theorem error_not_sticky_without_store :
     let f := { Expected.C20.facts with nodeG := { Expected.C20.allGuards with storeErr := false } }
     (run f exImpl Ord.id b0 [lam "start" (.conc 0) (.conc 0), lam "a" (.conc 0) (.conc 0)]).2.1
       = [.fresh .reserved, .ok] := by
+  decide
+
+/-! ### declarations -/
+
+def wlam (k : Key) (ins : List WfIn) : WfNode := { key := k, body := .plain false (.conc 0) (.conc 0), ins }
+def exEnv (inCtl : Bool) : Env := { f := Expected.C20.facts, inCtl, im := exImpl, ord := Ord.id }
+
+/-- `a.AddInputWithOptions(START, nil, WithNoDirectDependency()); End().AddInput("a")` -/
+def wfNoEntry : WfDecl :=
+  { inT := .conc 0, outT := .conc 0, stateTy := none,
+    nodes := [wlam "a" [⟨START, .indirect, none⟩]], endIns := [⟨"a", .input, none⟩], branches := [] }
+
+/-- the same with a real entry edge -/
+def wfOk : WfDecl := { wfNoEntry with nodes := [wlam "a" [⟨START, .input, none⟩]] }
+
+/-- the well-formed Workflow compiles (three times), the entry-less one is refused with
+    `start node not set` every time; a step limit is refused and leaves the Workflow usable -/
+example : (wfOk.lower true).compiles (exEnv true) [copts, copts, copts] = [.ok, .ok, .ok] ∧
+    (wfNoEntry.lower true).compiles (exEnv true) [copts, copts] = [.fresh .noStart, .fresh .noStart] ∧
+    (wfOk.lower true).compiles (exEnv true) [{ copts with maxSteps := 5 }, copts] =
+      [.fresh .maxStepsInDag, .ok] := by decide
+
+/-- …and as a node of a well-formed graph it makes the graph's Compile fail -/
+example :
+    let g (child : Decl) (co : COpts) : Decl := .mk .graph (.conc 0) (.conc 0) none
+      (.sub "w" child co (.ofList [.edge START "w" false false none, .edge "w" END false false none])) [] [] none
+    Decl.first (exEnv true) (g (wfOk.lower true) copts) copts = .ok ∧
+    Decl.first (exEnv true) (g (wfNoEntry.lower true) copts) copts = .fresh .noStart ∧
+    Decl.first (exEnv true) (g (wfOk.lower true) { copts with maxSteps := 7 }) copts = .fresh .maxStepsInDag := by
+  decide
+
+/-- With the two appends moved behind the data part of `addEdgeWithMappings` (run for every
+    accepted edge), the Workflow without entry edge compiles:
+    `rejects_workflow_without_entry_edge` is false for that value of the fact. -/
+theorem entry_less_workflow_accepted_when_bookkeeping_hoisted :
+    (wfNoEntry.lower true).compiles (exEnv false) [copts] = [.ok] ∧
+    ({ wfOk with endIns := [⟨"a", .indirect, none⟩] }.lower true).compiles (exEnv false) [copts] = [.ok] := by
+  decide
+
+/-- `Workflow.compile` on the unrepaired source: a branch naming an end node that no
+    Add…Node call declared makes Compile panic (nil entry of `wf.workflowNodes`). -/
+theorem workflow_compile_panics_on_undeclared_branch_end :
+    let d : WfDecl := { wfOk with branches := [⟨"a", .conc 0, [END, "ghost"]⟩] }
+    (d.lower false).compiles (exEnv true) [copts, copts] = [.panic, .panic] ∧
+    (d.lower true).compiles (exEnv true) [copts] = [.fresh .branchUnknownEnd] := by
   decide
 
 end EinoV.C20
